@@ -111,6 +111,8 @@ pub proof fn lemma_ns5()
 @fn contracts/cw4-stake/src/contract.rs calc_weight
 @ensures C10.weight_follows_stake
     r is Ok ==> weight_is(r->Ok_0, stake@, *cfg)
+@ensures C10.weight_refused_only_when_it_does_not_fit
+    cfg.tokens_per_weight@ > 0 && (stake@ < cfg.min_bond@ || stake@ / cfg.tokens_per_weight@ <= u64::MAX) ==> r is Ok
 @replace E8 "stake.u128() / (cfg.tokens_per_weight.u128())" 1
     rt_div_u128(stake.u128(), cfg.tokens_per_weight.u128())
 @end
